@@ -16,6 +16,9 @@ CHECKS = {
          'harness/cont_h.c replays generated histories on table, btree, priq, bitv, intset, list, buffer; every result is compared with a Python model (dict, sorted multiset, heap, int masks, lists, bytes). harness/dnf_h.c builds normal forms from formulas (exhaustive over 2 atoms depth 2 and 3 atoms depth 1, random up to 10 atoms) and the truth table of each normal form, implies and equal answers are checked. Both on plain and ASan builds.',
          'Operations outside the modules\' contracts (delete of an absent B-tree key, extract from an empty queue) are not issued; dnfImplies completeness beyond the term-wise test is a recorded finding.', '5 C20'),
 }
+CHECKS['C04'] = ('exploration', 'three-way differential monitor (interpreter / C runtime / constant folder) plus Python definitions',
+         'Every builtin that the Machine domain imports and whose operands are scalars (182 on the pinned tree, parsed from foamBValInfoTable) is applied to boundary tuples in generated sources; each source runs -Q0 interpreted, -Q0 through C and -Q2 -Qinline-all interpreted; results must agree and, for Bool/Char/SInt/HInt/Byte/BInt ops on their domain, equal the Python definition. The -Q2 .fm is inspected to count how many calls the folder really evaluated; ops never folded are listed, not passed off as folded.',
+         'Operand constants are themselves built through literal conversion builtins; outside an op\'s mathematical domain only agreement is demanded.', '5 C04')
 NA = {}
 def main():
     props = [json.loads(l) for l in open(os.path.join(V, 'properties.jsonl'))]
